@@ -11,13 +11,27 @@ thread_local! {
     static BYTES: Cell<u64> = const { Cell::new(0) };
     static COUNT: Cell<u64> = const { Cell::new(0) };
     static LARGEST: Cell<usize> = const { Cell::new(0) };
+    // sizes of the first allocations of the measured region, in order
+    static SEQ: Cell<[usize; SEQ_LEN]> = const { Cell::new([0; SEQ_LEN]) };
 }
+
+pub const SEQ_LEN: usize = 24;
 
 fn note(size: usize) {
     let _ = TRACK.try_with(|t| {
         if t.get() {
             let _ = BYTES.try_with(|b| b.set(b.get() + size as u64));
-            let _ = COUNT.try_with(|c| c.set(c.get() + 1));
+            let _ = COUNT.try_with(|c| {
+                let n = c.get() as usize;
+                if n < SEQ_LEN {
+                    let _ = SEQ.try_with(|q| {
+                        let mut a = q.get();
+                        a[n] = size;
+                        q.set(a);
+                    });
+                }
+                c.set(c.get() + 1)
+            });
             let _ = LARGEST.try_with(|l| l.set(l.get().max(size)));
         }
     });
@@ -48,6 +62,8 @@ pub struct Stats {
     pub bytes: u64,
     pub count: u64,
     pub largest: usize,
+    /// sizes of the first SEQ_LEN allocations, in order (0 = none)
+    pub seq: [usize; SEQ_LEN],
 }
 
 /// Runs `f` with allocation tracking on; returns what this thread allocated.
@@ -55,6 +71,7 @@ pub fn measure<T>(f: impl FnOnce() -> T) -> (T, Stats) {
     BYTES.with(|b| b.set(0));
     COUNT.with(|c| c.set(0));
     LARGEST.with(|l| l.set(0));
+    SEQ.with(|q| q.set([0; SEQ_LEN]));
     TRACK.with(|t| t.set(true));
     let v = f();
     TRACK.with(|t| t.set(false));
@@ -64,6 +81,7 @@ pub fn measure<T>(f: impl FnOnce() -> T) -> (T, Stats) {
             bytes: BYTES.with(Cell::get),
             count: COUNT.with(Cell::get),
             largest: LARGEST.with(Cell::get),
+            seq: SEQ.with(Cell::get),
         },
     )
 }
